@@ -8,7 +8,6 @@ import (
 	"fmt"
 	"os"
 	"path/filepath"
-	"strings"
 
 	"github.com/JunNishimura/Goit/internal/file"
 	"github.com/JunNishimura/Goit/internal/object"
@@ -37,7 +36,7 @@ func add(rootGoitPath, path string, index *store.Index) error {
 	if err != nil {
 		return err
 	}
-	cleanedRelPath := strings.ReplaceAll(relPath, `\`, "/") // replace backslash with slash
+	cleanedRelPath := filepath.ToSlash(relPath) // the index keeps slash-separated paths; a backslash is a separator on Windows only
 	byteRelPath := []byte(cleanedRelPath)
 
 	// nothing to do if the entry is already up to date
@@ -79,7 +78,7 @@ var addCmd = &cobra.Command{
 				// If the file does not exist but is registered in the index, delete it from the index
 				// but not delete here, just check it
 				cleanedArg := filepath.Clean(arg)
-				cleanedArg = strings.ReplaceAll(cleanedArg, `\`, "/")
+				cleanedArg = filepath.ToSlash(cleanedArg)
 				_, _, isEntryFound := client.Idx.GetEntry([]byte(cleanedArg))
 				if !isEntryFound {
 					return fmt.Errorf(`path "%s" did not match any files`, arg)
@@ -90,7 +89,7 @@ var addCmd = &cobra.Command{
 		for _, arg := range args {
 			// check if the arg is the target of excluding path
 			cleanedArg := filepath.Clean(arg)
-			cleanedArg = strings.ReplaceAll(cleanedArg, `\`, "/")
+			cleanedArg = filepath.ToSlash(cleanedArg)
 			if client.Ignore.IsIncluded(cleanedArg, client.Idx) {
 				continue
 			}
